@@ -14,6 +14,7 @@ from typing import (
     Dict,
     cast,
     Set,
+    FrozenSet,
 )
 
 import icontract._represent
@@ -666,7 +667,7 @@ def resolve_kwdefaults(sign: inspect.Signature) -> Dict[str, Any]:
 # The key refers to the id() of the function (preconditions and postconditions) or instance (invariants).
 _IN_PROGRESS = contextvars.ContextVar(
     "_IN_PROGRESS", default=None
-)  # type: contextvars.ContextVar[Optional[Set[int]]]
+)  # type: contextvars.ContextVar[Optional[FrozenSet[int]]]
 
 
 def decorate_with_checker(func: CallableT) -> CallableT:
@@ -735,14 +736,12 @@ def decorate_with_checker(func: CallableT) -> CallableT:
             if kwargs_error is not None:
                 raise kwargs_error
 
-            # We need to create a new in-progress set if it is None as the ``ContextVar`` does not accept
-            # a factory function for the default argument. If we didn't do this, and simply set an empty
-            # set as the default, ``ContextVar`` would always point to the same set by copying the default
-            # by reference.
+            # The in-progress set is immutable and never changed in place: a task or a thread which starts with
+            # a copy of this context shares the very object bound to the context variable, so that an in-place
+            # change would suspend (or re-arm) the contract checks of the concurrent callers.
             in_progress = _IN_PROGRESS.get()
             if in_progress is None:
-                in_progress = set()
-                _IN_PROGRESS.set(in_progress)
+                in_progress = frozenset()
 
             # If the wrapper is already checking the contracts for the wrapped function, avoid a recursive loop
             # by skipping any subsequent contract checks for the same function.
@@ -752,9 +751,11 @@ def decorate_with_checker(func: CallableT) -> CallableT:
             if id_func in in_progress:
                 return await func(*args, **kwargs)
 
+            with_marker = in_progress | {id_func}
+
             # Use try-finally instead of ExitStack for performance.
             try:
-                in_progress.add(id_func)
+                _IN_PROGRESS.set(with_marker)
 
                 (preconditions, snapshots, postconditions) = _unpack_pre_snap_posts(
                     wrapper
@@ -792,11 +793,11 @@ def decorate_with_checker(func: CallableT) -> CallableT:
                 #
                 # The contracts are not being checked while the function itself runs. Release the marker so that
                 # the calls which the function makes to itself (*e.g.*, recursion) are checked as any other call.
-                in_progress.discard(id_func)
+                _IN_PROGRESS.set(in_progress)
                 try:
                     result = await func(*args, **kwargs)
                 finally:
-                    in_progress.add(id_func)
+                    _IN_PROGRESS.set(with_marker)
 
                 if postconditions:
                     resolved_kwargs["result"] = result
@@ -809,7 +810,7 @@ def decorate_with_checker(func: CallableT) -> CallableT:
 
                 return result
             finally:
-                in_progress.discard(id_func)
+                _IN_PROGRESS.set(in_progress)
 
     else:
 
@@ -819,14 +820,12 @@ def decorate_with_checker(func: CallableT) -> CallableT:
             if kwargs_error is not None:
                 raise kwargs_error
 
-            # We need to create a new in-progress set if it is None as the ``ContextVar`` does not accept
-            # a factory function for the default argument. If we didn't do this, and simply set an empty
-            # set as the default, ``ContextVar`` would always point to the same set by copying the default
-            # by reference.
+            # The in-progress set is immutable and never changed in place: a task or a thread which starts with
+            # a copy of this context shares the very object bound to the context variable, so that an in-place
+            # change would suspend (or re-arm) the contract checks of the concurrent callers.
             in_progress = _IN_PROGRESS.get()
             if in_progress is None:
-                in_progress = set()
-                _IN_PROGRESS.set(in_progress)
+                in_progress = frozenset()
 
             # If the wrapper is already checking the contracts for the wrapped function, avoid a recursive loop
             # by skipping any subsequent contract checks for the same function.
@@ -836,9 +835,11 @@ def decorate_with_checker(func: CallableT) -> CallableT:
             if id_func in in_progress:
                 return func(*args, **kwargs)
 
+            with_marker = in_progress | {id_func}
+
             # Use try-finally instead of ExitStack for performance.
             try:
-                in_progress.add(id_func)
+                _IN_PROGRESS.set(with_marker)
 
                 (preconditions, snapshots, postconditions) = _unpack_pre_snap_posts(
                     wrapper
@@ -878,11 +879,11 @@ def decorate_with_checker(func: CallableT) -> CallableT:
                 #
                 # The contracts are not being checked while the function itself runs. Release the marker so that
                 # the calls which the function makes to itself (*e.g.*, recursion) are checked as any other call.
-                in_progress.discard(id_func)
+                _IN_PROGRESS.set(in_progress)
                 try:
                     result = func(*args, **kwargs)
                 finally:
-                    in_progress.add(id_func)
+                    _IN_PROGRESS.set(with_marker)
 
                 if postconditions:
                     resolved_kwargs["result"] = result
@@ -897,7 +898,7 @@ def decorate_with_checker(func: CallableT) -> CallableT:
 
                 return result
             finally:
-                in_progress.discard(id_func)
+                _IN_PROGRESS.set(in_progress)
 
     # Copy __doc__ and other properties so that doctests can run
     functools.update_wrapper(wrapper=wrapper, wrapped=func)
@@ -1062,14 +1063,12 @@ def _decorate_with_invariants(func: CallableT, is_init: bool) -> CallableT:
 
             # We need to disable the invariants check during the constructor.
 
-            # We need to create a new in-progress set if it is None as the ``ContextVar`` does not accept
-            # a factory function for the default argument. If we didn't do this, and simply set an empty
-            # set as the default, ``ContextVar`` would always point to the same set by copying the default
-            # by reference.
+            # The in-progress set is immutable and never changed in place: a task or a thread which starts with
+            # a copy of this context shares the very object bound to the context variable, so that an in-place
+            # change would suspend (or re-arm) the contract checks of the concurrent callers.
             in_progress = _IN_PROGRESS.get()
             if in_progress is None:
-                in_progress = set()
-                _IN_PROGRESS.set(in_progress)
+                in_progress = frozenset()
 
             id_instance = id(instance)
             if id_instance in in_progress:
@@ -1078,7 +1077,7 @@ def _decorate_with_invariants(func: CallableT, is_init: bool) -> CallableT:
                 # before the outermost constructor finishes, and the marker belongs to that constructor.
                 return func(*args, **kwargs)
 
-            in_progress.add(id_instance)
+            _IN_PROGRESS.set(in_progress | {id_instance})
 
             # ExitStack is not used here due to performance.
             try:
@@ -1089,7 +1088,7 @@ def _decorate_with_invariants(func: CallableT, is_init: bool) -> CallableT:
 
                 return result
             finally:
-                in_progress.discard(id_instance)
+                _IN_PROGRESS.set(in_progress)
 
     else:
         # (mristin, 2021-02-16)
@@ -1125,20 +1124,18 @@ def _decorate_with_invariants(func: CallableT, is_init: bool) -> CallableT:
                     else instance.__class__.__invariants_on_call__
                 )
 
-                # We need to create a new in-progress set if it is None as the ``ContextVar`` does not accept
-                # a factory function for the default argument. If we didn't do this, and simply set an empty
-                # set as the default, ``ContextVar`` would always point to the same set by copying the default
-                # by reference.
+                # The in-progress set is immutable and never changed in place: a task or a thread which starts with
+                # a copy of this context shares the very object bound to the context variable, so that an in-place
+                # change would suspend (or re-arm) the contract checks of the concurrent callers.
                 in_progress = _IN_PROGRESS.get()
                 if in_progress is None:
-                    in_progress = set()
-                    _IN_PROGRESS.set(in_progress)
+                    in_progress = frozenset()
 
                 # The following dunder indicates whether another invariant is currently being checked. If so,
                 # we need to suspend any further invariant check to avoid endless recursion.
                 id_instance = id(instance)
                 if id_instance not in in_progress:
-                    in_progress.add(id_instance)
+                    _IN_PROGRESS.set(in_progress | {id_instance})
                 else:
                     # Do not check any invariants to avoid endless recursion.
                     return await func(*args, **kwargs)
@@ -1155,7 +1152,7 @@ def _decorate_with_invariants(func: CallableT, is_init: bool) -> CallableT:
 
                     return result
                 finally:
-                    in_progress.discard(id_instance)
+                    _IN_PROGRESS.set(in_progress)
 
         else:
 
@@ -1182,18 +1179,16 @@ def _decorate_with_invariants(func: CallableT, is_init: bool) -> CallableT:
                 # The following dunder indicates whether another invariant is currently being checked. If so,
                 # we need to suspend any further invariant check to avoid endless recursion.
 
-                # We need to create a new in-progress set if it is None as the ``ContextVar`` does not accept
-                # a factory function for the default argument. If we didn't do this, and simply set an empty
-                # set as the default, ``ContextVar`` would always point to the same set by copying the default
-                # by reference.
+                # The in-progress set is immutable and never changed in place: a task or a thread which starts with
+                # a copy of this context shares the very object bound to the context variable, so that an in-place
+                # change would suspend (or re-arm) the contract checks of the concurrent callers.
                 in_progress = _IN_PROGRESS.get()
                 if in_progress is None:
-                    in_progress = set()
-                    _IN_PROGRESS.set(in_progress)
+                    in_progress = frozenset()
 
                 id_instance = id(instance)
                 if id_instance not in in_progress:
-                    in_progress.add(id_instance)
+                    _IN_PROGRESS.set(in_progress | {id_instance})
                 else:
                     # Do not check any invariants to avoid endless recursion.
                     return func(*args, **kwargs)
@@ -1210,7 +1205,7 @@ def _decorate_with_invariants(func: CallableT, is_init: bool) -> CallableT:
 
                     return result
                 finally:
-                    in_progress.discard(id_instance)
+                    _IN_PROGRESS.set(in_progress)
 
     functools.update_wrapper(wrapper=wrapper, wrapped=func)
 
